@@ -106,7 +106,7 @@ def run(replay=None):
     c.samples = vlib.sample_cases(cases, c.rng, 3)
     for s in c.samples:
         s["ops"] = s["ops"][:12]
-    groups = c.go_run("./internal/ackhandler", "TestVerifC07", cases, {"internal/ackhandler/zz_verif_c07_test.go": "ackhandler/c07_test.go"})
+    groups = c.go_run("./internal/ackhandler", "TestVerifC07", cases, vlib.pkg_overlay("internal/ackhandler", "ackhandler"))
     jobs = []
     for g, files in groups.items():
         npn = 400 if g == "appL" else 7
